@@ -275,10 +275,17 @@ def _site_keys(lib, f):
         elif s.k == 'decl':
             assigned[s.a[0]] = assigned.get(s.a[0], 0) + (0 if s.a[2] is not None else 1)
     env = {}
+    noinit = {s.a[0] for s in walk_stmts(f.body) if s.k == 'decl' and s.a[2] is None}
     for s in walk_stmts(f.body):
         if s.k == 'decl' and s.a[2] is not None and assigned.get(s.a[0], 0) == 0:
             try:
                 env[s.a[0]] = Canon(env=dict(env), fold_global=lib.global_value)(s.a[2])
+            except Exception:
+                pass
+        elif s.k == 'assign' and s.a[0].k == 'var' and s.a[0].a[0] in noinit and assigned.get(s.a[0].a[0], 0) == 2 and (len(s.a) < 3 or s.a[2] == '='):
+            # declared without a value and assigned exactly once (the result variable of an inlined helper, `T x; x = e;`)
+            try:
+                env[s.a[0].a[0]] = Canon(env=dict(env), fold_global=lib.global_value)(s.a[1])
             except Exception:
                 pass
 
@@ -292,6 +299,18 @@ def _site_keys(lib, f):
             l, r = r, l
         return ('(%s%s%s)' % (l, e.a[0], r)).replace(' ', '')
     return key
+
+
+def _const_side(txt, op):
+    """'-946684800' / '+2451545' / '*86400' / '0-' when one operand of the canonical node text `(l<op>r)` is an integer literal"""
+    import re
+    m = re.match(r'^\((-?\d+)([-+*])(.*)\)$', txt)
+    if m and m.group(2) == op and not re.match(r'^-?\d+$', m.group(3)):
+        return ('%s%s' % (m.group(1), op)) if op == '-' else ('%s%s' % (op, m.group(1)))
+    m = re.match(r'^\((.*)([-+*])(-?\d+)\)$', txt)
+    if m and m.group(2) == op and not re.match(r'^-?\d+$', m.group(1)):
+        return '%s%s' % (op, m.group(3))
+    return None
 
 
 def overflow_rules(R, lib):
@@ -321,9 +340,18 @@ def overflow_rules(R, lib):
             keyof = _site_keys(lib, f)
             for (loc, txt), (ok, lo, hi, r1, r2, e) in sorted(hk.sites.items()):
                 txt = keyof(e)
-                k = seen_c.get(txt, 0)
-                seen_c[txt] = k + 1
-                c = '%s:%s%s' % (short, txt.replace('ace_time::', ''), '' if k == 0 else '#%d' % k)
+                # the name of the obligation (what a known finding is keyed by) must survive a refactoring that leaves the
+                # computation alone: a node with a constant operand is named by function, operator and constant
+                # (`forUnixSeconds:-946684800`); any other by the class and the canonical text of the node, whichever member
+                # it sits in (a shared sub-expression moved into a helper keeps its name)
+                cst = _const_side(txt, e.a[0])
+                if cst is not None:
+                    base = '%s:%s' % (short, cst)
+                else:
+                    base = '%s:%s' % (parts[1], txt.replace('ace_time::', ''))
+                k = seen_c.get(base, 0)
+                seen_c[base] = k + 1
+                c = '%s%s' % (base, '' if k == 0 else '#%d' % k)
                 R.instance('R8', c, loc)
                 if not ok:
                     R.violation('R8', c, loc, 'the operands range over [%s, %s] and [%s, %s], the result over [%s, %s]: outside int32, so for some field/argument values '
